@@ -30,6 +30,7 @@ THEOREMS = ["Eliot.C19.fifo_exactly_once", "Eliot.C19.stop_drains", "Eliot.C19.c
 GENERATED_OBLIGATIONS = ["Generated.writer = Writer.assumed"]
 RULE = ("configurations: 1-3 producers x 0-5 messages, failure masks (none / first / last / every other / all), 1-3 start/stop cycles; "
         "schedules: context-bounded DFS (<= 2 preemptions quick, <= 3 thorough) from the real code's enabled sets plus seeded random schedules; "
+        "plus bursts of 1 500 / 12 000 (thorough: 50 000) messages offered before the writer thread runs (backlog dimension, oracle only); "
         "a case = (configuration, executed schedule); non-trivial = >= 1 message, >= 1 preemption, and at least one put happens after the "
         "first startService statement ran; distinct by canonical hash")
 TRUSTED = ["queue.SimpleQueue (unbounded FIFO, atomic put/get), threading.Thread start/join",
@@ -69,12 +70,26 @@ class RecQueue(object):
     def __init__(self, q, S, stop):
         self._q, self._S, self._stop, self.puts = q, S, stop, []
 
-    def put(self, item, *a, **kw):
+    def _record(self, item):
         self.puts.append(("stop" if item is self._stop else (item.get("id") if isinstance(item, dict) else repr(item)), self._S.current()[0]))
-        return self._q.put(item, *a, **kw)
+
+    def put(self, item, block=True, timeout=None):
+        full = getattr(self._q, "full", None)
+        if block and full is not None and full():
+            # a bounded queue that is full: the real call would block the caller (and, under the scheduler, everything);
+            # turn it into an observation
+            raise WouldBlock("put() on a full queue would block the caller")
+        if hasattr(self._q, "full"):
+            r = self._q.put(item, block, timeout)
+        else:
+            r = self._q.put(item)
+        self._record(item)
+        return r
 
     def put_nowait(self, item):
-        return self.put(item)
+        r = self._q.put_nowait(item)
+        self._record(item)
+        return r
 
     def get(self, *a, **kw):
         return self._q.get(*a, **kw)
@@ -91,6 +106,10 @@ class RecQueue(object):
 
 class DiskFull(Exception):
     pass
+
+
+class WouldBlock(Exception):
+    """Raised by the recording queue proxy instead of blocking forever."""
 
 
 EXCS = [IOError, ValueError, DiskFull, KeyError]
@@ -167,13 +186,13 @@ def oracle(case, res, obs):
     bad = []
     nprod = len(case["producers"])
     callers = set(range(nprod + 1))
-    if res.deadlock:
-        return ["deadlock: stopService's result never completes / threads stuck at %s" % sorted(res.deadlock.items())]
     for t, name in sorted(obs["errors"].items()):
         if t <= nprod:
             bad.append("%s raised %s into its caller" % ("the writer call" if t < nprod else "startService/stopService", name))
         else:
             bad.append("a writer thread (scheduler id %d) died with %s" % (t, name))
+    if res.deadlock:
+        return bad + ["deadlock: stopService's result never completes / threads stuck at %s" % sorted(res.deadlock.items())]
     readers, joiners, others = thread_roles(res, nprod)
     log, puts = obs["log"], obs["puts"]
     # segments of the put history
@@ -338,9 +357,21 @@ def first_start_step(res, sk, nprod):
     return None
 
 
+def max_backlog(obs):
+    """messages queued before the first STOP (with the producer-first schedule: before the reader ran at all)"""
+    n = 0
+    for item, _ in obs["puts"]:
+        if item == "stop":
+            break
+        n += 1
+    return n
+
+
 def run(ctx):
     load_logwriter()
     sk = e4_threaded_writer.skeleton(REPO)
+    ctx.obligation("skeleton-recognised:E4 (eliot/logwriter.py has the shape the model is written for)", "generated-skeleton",
+                   not sk["problems"], "; ".join(sk["problems"]))
     broken = any(n in ctx.broken for n in GENERATED_OBLIGATIONS) or bool(sk["problems"])
     if broken:
         ctx.notes.append("skeleton E4 differs from the assumed shape: failing-input search on the real code with the enlarged budget")
@@ -392,6 +423,23 @@ def run(ctx):
             model_ctx.append((case, res, obs))
             if bad:
                 break
+    # bursts: a large backlog builds up before the writer thread gets to run (the queue is unbounded: nothing may be
+    # refused, dropped or reordered however many messages are pending); oracle only, the model is not run on these
+    for n in ctx.budget([1500, 12000], [1500, 12000, 50000]):
+        if nviol >= 3:
+            break
+        case0 = dict(producers=[list(range(1, n + 1))], cycles=1, fails=[7, n // 2, n])
+        SB = sched.Scheduler([LOGWRITER], [sched.QueueGetLines(LOGWRITER), sched.LockLines(LOGWRITER)], timeout=600.0, max_steps=12 * n + 1000)
+        res, obs = run_real(SB, case0, sched.Explicit([]))  # producer first, then start/stop, then the reader drains
+        backlog = max_backlog(obs)
+        ctx.case(dict(burst=n, cycles=1, fails=case0["fails"], schedule="producer-first"), nontrivial=backlog >= n,
+                 tags=["burst:%d" % n, "burst:backlog>=%d" % (10 ** (len(str(max(backlog, 1))) - 1))])
+        ctx.count("steps", n=len(res.trace))
+        bad = oracle(case0, res, obs)
+        if bad:
+            nviol += 1
+            small = dict(obs, log=obs["log"][:20], puts=obs["puts"][:20], left=obs["left"][:20])
+            ctx.violation("burst of %d messages: %s" % (n, bad[0]), dict(kind="burst", burst=n, fails=case0["fails"], observed=small, also=bad[1:4]), key=None)
     if model_in:
         answers = lean_driver("Driver/C19.lean", model_in)
         agree = 0
@@ -408,6 +456,17 @@ def run(ctx):
 
 def replay(ctx, obj):
     case = obj.get("case") or {}
+    if case.get("kind") == "burst":
+        n = case["burst"]
+        c0 = dict(producers=[list(range(1, n + 1))], cycles=1, fails=case["fails"])
+        SB = sched.Scheduler([LOGWRITER], [sched.QueueGetLines(LOGWRITER), sched.LockLines(LOGWRITER)], timeout=600.0, max_steps=12 * n + 1000)
+        res, obs = run_real(SB, c0, sched.Explicit([]))
+        print("burst of %d messages, producer first; errors: %s; destination calls: %d; left in queue: %d" % (
+            n, obs["errors"], sum(1 for e in obs["log"] if e[0] == "call"), len(obs["left"])))
+        bad = oracle(c0, res, obs)
+        if bad:
+            ctx.violation("burst of %d messages: %s" % (n, bad[0]), dict(case, also=bad[1:4]))
+        return
     if "producers" not in case:
         run(ctx)
         return
